@@ -19,7 +19,7 @@ CLAIMED = {
         note=CORR + "go-crc24q is modelled and compared on every frame.", design="5/C01",
         technique="Coq proof (case analysis of the framing phases, CRC linearity) + extracted-model correspondence"),
     "C02": dict(
-        text="Theorem C02_every_schedule (axiom-free): the same over the channel network of Pipe.v with one consumer, for all capacities of the byte, message and consumer channels and every schedule: executions are finite and end with the consumer holding the lossless segmentation, the framer halted and the output channel closed. Theorem C02_lossless (axiom-free): for every input the modelled stream handler returns, and the delivered raw bytes "
+        text="Theorem C02_every_schedule (axiom-free): the same over the channel network of Pipe.v with one consumer, for all capacities of the byte, message and consumer channels and every schedule: executions are finite and end with the consumer holding the lossless segmentation, the framer halted and the output channel closed; C02_every_schedule_incremental is the same with the byte-driven framer machine of IncFrame.v. Theorem C02_lossless (axiom-free): for every input the modelled stream handler returns, and the delivered raw bytes "
              "concatenate to the input with no empty message (induction on fuel with the invariant delivered++pushback++unread = "
              "input). Correspondence on ~7k streams incl. all strings over {d3,00,01,3e} up to length 6, every truncation offset, "
              "channel capacities {0,1,2,64}^2 and producer/consumer delays; closing is observed on the real channel.",
@@ -133,7 +133,7 @@ CLAIMED = {
              "delivered as non-RTCM (a delivered type is -1 or a 12-bit value: handle_type_range). For streams of valid frames "
              "interleaved with 0xD3-free data and an optional truncated tail the output is exactly the frames in order (no "
              "omission). C10_every_schedule composes this with the pipeline network of C09: with 1-3 writer goroutines "
-             "(output, display log, record file) every schedule ends with every writer having written exactly the frames. "
+             "(output, display log, record file) every schedule ends with every writer having written exactly the frames (C10_every_schedule_incremental: the same with the byte-driven framer). "
              "Correspondence: the real HandleMessages of rtcmfilter (go test -overlay) on mixed/hostile/segment streams, all "
              "display/record switch settings, chunkings and writer latencies; output, record file and number of display "
              "entries compared with the extracted model and the valid_frame specification.",
@@ -189,7 +189,11 @@ CLAIMED = {
         text="Theorems C13_forwarding, C13_resume, C13_stop_zero_or_error, C13_stop_silent (axiom-free) over a model of the file "
              "handler's read loop with an explicit clock: bytes read before the stop are forwarded exactly once in order wherever "
              "interruptions fall; single/double EOF or timeout within the tolerance never stop the loop; tolerance zero, other errors "
-             "and lasting silence do. Correspondence: the real filehandler.Handle over a scripted reader with interruptions at "
+             "and lasting silence do. C13_delivered_any_faults / C13_delivered_gentle (RetryPipe.v) put the loop in front of the network "
+             "reader -> byte-driven framer -> fan-out -> consumers: for ANY fault script and tolerance the loop forwards the data of a prefix of the "
+             "script and every schedule ends with every live consumer holding handle_stream's messages for exactly those bytes (raw bytes "
+             "concatenate to them: a frame cut by the stop arrives as non-RTCM data; both channels closed); with gentle interruptions these are "
+             "the messages of the uninterrupted stream. Correspondence: the real filehandler.Handle over a scripted reader with interruptions at "
              "every framing phase boundary.",
         note=CORR + "Partial: wall-clock behaviour between the margins (pauses 0 or 4x tolerance) is not explored.", design="5/C13",
         technique="Coq proof (induction over the read script) + scripted-reader correspondence"),
